@@ -728,6 +728,20 @@ pub fn orchestrate<P: Property>(tier: Tier) -> i32 {
 // replay / shrink / determinism
 // ---------------------------------------------------------------------------
 
+/// Print run `i` of a property as a replay file (for debugging and demos).
+pub fn gen_main<P: Property>(tier: Tier, i: u64) -> i32 {
+    let base = base_seed();
+    let seeded = seeded_budget::<P>(tier);
+    let (seed, sc) = scenario_for::<P>(base, tier, seeded, i);
+    let v = json!({
+        "property": P::ID, "tier": tier.name(), "base_seed": base, "run_index": i,
+        "seed": seed, "class": "", "detail": "", "minimised": false,
+        "scenario": serde_json::to_value(&sc).unwrap(),
+    });
+    println!("{}", serde_json::to_string_pretty(&v).unwrap());
+    0
+}
+
 pub fn replay_file_property(path: &str) -> String {
     let s = fs::read_to_string(path).unwrap_or_else(|e| {
         eprintln!("fusim: cannot read {path}: {e}");
@@ -865,6 +879,9 @@ pub fn determinism_main<P: Property>(n: u64) -> i32 {
                 let (_, sc) = scenario_for::<P>(base, Tier::Quick, n, i);
                 let mut rep = Report::new(false);
                 P::check(&sc, ctx, &mut rep);
+                // probes prefixed rt_ depend on the real clock's tick and are
+                // declared non-reproducible by the property itself
+                let probes: BTreeMap<&str, u64> = rep.probes.iter().filter(|(k, _)| !k.starts_with("rt_")).map(|(k, v)| (*k, *v)).collect();
                 out.push(format!(
                     "{} {:016x} {} {} {:?} {:?}",
                     i,
@@ -872,7 +889,7 @@ pub fn determinism_main<P: Property>(n: u64) -> i32 {
                     rep.steps,
                     rep.violation.map(|v| v.class).unwrap_or_default(),
                     rep.faults,
-                    rep.probes
+                    probes
                 ));
                 i += stride;
             }
